@@ -196,6 +196,7 @@ impl World for ScopedPrograms {
             real_conds: 0.0,
             loggers: false,
             requires: false,
+            small_values: false,
         };
         let program = ProgGen::new(&mut g, &cfg).program();
         // fault plan: none, or one failing event drawn from the fault-free reference trace
